@@ -611,6 +611,11 @@ func (w *simWorld) restart(n *simNode, spec *nodeSpec) *simNode {
 	}
 	nn, err := w.newSimNode(n.idx, spec)
 	if err != nil {
+		if strings.Contains(err.Error(), "expired") {
+			// a node whose certificate expired meanwhile cannot start again: it stays down
+			w.rc.Count("probe.restart_refused_expired_cert", 1)
+			return n
+		}
 		w.rc.HarnessError("restart node %d: %v", n.idx, err)
 		return n
 	}
